@@ -302,9 +302,10 @@ Definition abs_h (h : handle) : shandle :=
   mkSH (match h_src h with
         | SrcMem cap => SLMem (map strip (h_mem h)) cap
                               (match h_msig h, h_indexable h with Some s, Some b => Some (s, b) | _, _ => None end)
+                              (h_used h)
         | SrcFile p => SLFile p
         | SrcMerged p => SLFile p
-        end) (h_mode h).
+        end) (h_mode h) (h_cap h).
 Definition abs (w : world) : sworld := mkSW (abs_fs (w_fs w)) (option_map abs_h (w_h w)).
 
 Lemma slookup_abs p fs : slookup p (abs_fs fs) = option_map abs_node (flookup p fs).
